@@ -287,6 +287,34 @@ func runC06(c *Ctx) {
 					}
 				}
 			}
+			// the same, with the sum taken into a local array first: h.Sum(sum[:0]); copy(sig[:], sum[:6])
+			for _, ci := range callsNamed(fn, "copy") {
+				a := ci.Common().Args
+				sl, isSl := a[1].(*ssa.Slice)
+				if !isSl || sl.Low != nil || sl.High == nil {
+					continue
+				}
+				if k, isK := constInt(sl.High); !isK || k != 6 {
+					continue
+				}
+				arr, isA := sl.X.(*ssa.Alloc)
+				if !isA {
+					continue
+				}
+				for _, in := range allInstrs(fn) {
+					sum, isC := in.(*ssa.Call)
+					if !isC || !sum.Call.IsInvoke() || sum.Call.Method.Name() != "Sum" || sum.Call.Value != h {
+						continue
+					}
+					if pre, isPre := sum.Call.Args[0].(*ssa.Slice); isPre && pre.X == ssa.Value(arr) && emptyPrefix(pre) && instrDominates(sum, ci.(ssa.Instruction)) {
+						for _, ret := range retInstrs(fn) {
+							if len(ret.Results) == 1 && strings.HasPrefix(ex(a[0]), strings.TrimPrefix(ex(ret.Results[0]), "&")) {
+								okRes = true
+							}
+						}
+					}
+				}
+			}
 			r.Check(okRes, "R6.1", "V2Frame.GenerateSignature result", c.Pos(fn.Pos()), "first 6 bytes (48 bits) of the SHA-256 sum", "the signature is not the first 6 bytes of h.Sum(nil) of the same hash")
 		}
 	}
@@ -363,8 +391,19 @@ func runC06(c *Ctx) {
 			}
 			// signature of the frame being parsed
 			if rf.v2 != nil && rf.sigIf != nil {
-				b := rf.sigIf.Cond.(*ssa.BinOp)
+				cnd := rf.sigIf.Cond
+				for {
+					u, isU := cnd.(*ssa.UnOp)
+					if !isU || u.Op != token.NOT {
+						break
+					}
+					cnd = u.X
+				}
+				b := cnd.(*ssa.BinOp)
 				okSame := strings.Contains(ex(b.X), ex(rf.v2)) && strings.Contains(ex(b.Y), ex(rf.v2))
+				if call, isCall := b.X.(*ssa.Call); isCall && len(call.Call.Args) == 2 {
+					okSame = strings.Contains(ex(call.Call.Args[0]), ex(rf.v2)) && strings.Contains(ex(call.Call.Args[1]), ex(rf.v2))
+				}
 				r.Check(okSame, "R6.2", "Reader.Read signature operands", c.Pos(rf.sigIf.Pos()), "both operands derive from the frame being parsed", "the signature comparison does not compare the generated and the carried signature of the frame being parsed")
 			}
 		}
